@@ -32,12 +32,12 @@ const (
 
 func init() {
 	register("C08", propMeta{
-		Explanation:  "Decides the write ordering that crash recovery depends on: (R1) every commit step with a persistent effect is logged before it acts (commitUpdatedNodes, which logs the ids it allocated, logs immediately after and from the action's own result), on first and on every repeated execution; (R2) in phase1Commit the priority log of handle pre-images is written before activateInactiveNodes/touchNodes mutate those handles in place, its payload is built from exactly the slices those two calls receive, and it may be skipped only when both slices are empty; (R3) priorityRollback and doPriorityRollbacks write the logged pre-images back and remove the priority log only after the registry write succeeded, and Phase2Commit's failure path restores pre-images (or removes the priority log) before the ordinary rollback; (R4) the file transaction log flushes every record before reporting success and the priority log is written through the checksummed WriteFile path. (R5) restoreFromCow reports success only after it copied the verified backup into the caller's buffer, for read-only callers too (shared with C23.R1).",
+		Explanation:  "Decides the write ordering that crash recovery depends on: (R1) every commit step with a persistent effect is logged before it acts (commitUpdatedNodes, which logs the ids it allocated, logs immediately after and from the action's own result), on first and on every repeated execution; (R2) in phase1Commit the priority log of handle pre-images is written before activateInactiveNodes/touchNodes mutate those handles in place, its payload is built from exactly the slices those two calls receive, and it may be skipped only when both slices are empty; (R3) priorityRollback and doPriorityRollbacks write the logged pre-images back and remove the priority log only after the registry write succeeded, and Phase2Commit's failure path restores pre-images (or removes the priority log) before the ordinary rollback; (R4) the file transaction log flushes every record before reporting success and the priority log is written through the checksummed WriteFile path. (R5) restoreFromCow reports success only after it copied the verified backup into the caller's buffer, for read-only callers too (shared with C23.R1). (R6) the priority log of a commit is removed in phase 2 right after the registry flip and before anything deletes obsolete entries (shared with C10.R7): a crash in cleanup must not find a priority log that restores handles whose blobs are already gone.",
 		DoesNotCover: "Crash points are not enumerated and recovery is not executed; durability below the OS page cache (no fsync anywhere in the code) is assumed, not checked; torn registry blocks are C22.",
 		Assumptions:  []string{"process death, not power loss: a completed write(2) survives"},
 	}, runC08)
 	register("C07", propMeta{
-		Explanation:  "Decides undo coverage and lock release on every error exit: (R1) the table step -> {log site in phase1Commit/NewBtree, guarded undo block in the live rollback, guarded undo block in the dead-transaction log replay} is extracted from the code and must be complete for every step with a persistent effect, each undo calling the matching undo function; (R2) the live-rollback guard of a step whose action performs two persistent effects must also cover the state in which only the first effect happened; (R3) rollback releases node-key locks on every path and item locks once they may have been taken; a failed node-key Lock/DualLock attempt in phase1Commit is followed by Unlock before sleeping or retrying; (R4) log removal is on every terminal path; (R6) the undos that clear whatever reservation / deletion mark / root the registry holds run only under a strict `>` guard whose truth implies the step succeeded for this transaction. (R7) a first root's blob is written before its handle is registered; (R8) what an undo function looks up in the registry is recorded there before the data it leads to is written. (R9) transactionLog.log assigns the step marker on every path, also when the backend rejects the record. (R10) = C03.R8; (R11) the functions phase1Commit calls only to compute a log payload assign no tracker or transaction state; (R12) the rollback list takes an item's current id before the id is reset.",
+		Explanation:  "Decides undo coverage and lock release on every error exit: (R1) the table step -> {log site in phase1Commit/NewBtree, guarded undo block in the live rollback, guarded undo block in the dead-transaction log replay} is extracted from the code and must be complete for every step with a persistent effect, each undo calling the matching undo function; (R2) the live-rollback guard of a step whose action performs two persistent effects must also cover the state in which only the first effect happened; (R3) rollback releases node-key locks on every path and item locks once they may have been taken; a failed node-key Lock/DualLock attempt in phase1Commit is followed by Unlock before sleeping or retrying; (R4) log removal is on every terminal path; (R6) the undos that clear whatever reservation / deletion mark / root the registry holds run only under a strict `>` guard whose truth implies the step succeeded for this transaction. (R7) a first root's blob is written before its handle is registered; (R8) what an undo function looks up in the registry is recorded there before the data it leads to is written. (R9) transactionLog.log assigns the step marker on every path, also when the backend rejects the record. (R10) = C03.R8; (R11) the functions phase1Commit calls only to compute a log payload assign no tracker or transaction state; (R12) the rollback list takes an item's current id before the id is reset. (R13) the list returned by getRollbackStoresInfo is positionally paired with btreesBackend in Transaction.rollback (one element per backend, no filtering), because the consumer indexes the created flags with the list position.",
 		DoesNotCover: "That the undo functions restore byte-identical state is not decided (C10 decides which ids they may delete); fault schedules are not executed.",
 	}, runC07)
 }
